@@ -17,7 +17,7 @@ LEVEL_TEXT = {
     "C08": "proof: exceptional postcondition of the flush loop and its callers (written ones gone, unwritten stay, no repeat) + the release's normal postcondition (a release whose writes succeed leaves nothing of that node: 'written at a later wake'); the outgoing set handler parks a command under its own (node, child, value type) key; bounded native fault enumeration (the property's own quantifier) stands in when the loop is restructured",
     "C09": "proof: rely/guarantee at the await inside the flush loop (shared buffer havocked under the rely before the callee post): no entry is removed whose message the flush did not write, neither before it suspends in the write nor after it resumes; park branch proved await-free; the destination stays flagged sleeping for the whole release (precondition proved at every call site, loop invariant), so a racing send can only park; bounded sweep of 42 native schedules (keys differing in child or in value type only)",
     "C10": "proof: presentation-request wrapper contract on every decorated handler: one request iff no marker, marker only after a successful write, re-armed by node presentation; the contract of Gateway.send the wrapper is verified against is proved in the same check on Gateway.send and the outgoing handlers",
-    "C11": "proof: handle_i_id_request contract (range, fresh, registered before write, response shape, failure frames) over an arbitrary registry",
+    "C11": "proof: handle_i_id_request contract (range, fresh, registered before write, response shape, failure frames) over an arbitrary registry; the contract of Gateway.send the handler is verified against is proved in the same check",
     "C12": "proof: trichotomy contract of Gateway.send over all commands/buffer flag/versions; outgoing handlers proved on their bodies; 'held and handed to the transport at the next wake' = the release contract's each-released-once / unwritten-stay clauses proved on the release loop (2.0-2.2)",
     "C13": "proof of the repository-code parts (save loop serialises every node; make_node/make_child restore every named attribute; legacy hooks; reach domain of validated fields inside their accept domain incl. the battery handler's range); marshmallow's and json's own field round trips are assumed contracts cross-checked by a bounded native round trip",
     "C14": "proof: exceptional postcondition raises-only{PersistenceReadError} of Persistence.load over an arbitrary file state and an arbitrary parsed JSON value, with the real schema hooks and constructors; missing and empty file cases",
